@@ -1,8 +1,8 @@
 /-
   Finv (C04), part 33: `replace` in the gap case — the argument checks of
   `insert_after(previous, replacing)` on the state after `remove_subtree(replaced)`, and the case of
-  a text replacing node: it is merged into the left text, then the final consolidation merges the
-  right text; the result is `remove(replaced)` applied to the (valid) forest in which the replacing
+  a text replacing node: it is merged into the left text, then the final consolidation (of the
+  right text with what now stands before it: the left text) merges the right text; the result is `remove(replaced)` applied to the (valid) forest in which the replacing
   text has already been merged into the left text.
 -/
 import XotModel.Lemmas.FinvRepl
@@ -141,7 +141,7 @@ theorem Gap.guards (g : Gap f a init fr l0 P A N r0 ps ns) (hi : f.Inv) {b : Nat
 theorem Gap.replace_text (g : Gap f a init fr l0 P A N r0 ps ns) (hi : f.Inv) {b : Nat} {bv : Value}
     (ra : ReplArgs f a b fr P N bv) (hbt : bv.isText = true) :
     ∃ Y, (f.dropSubtree a).insertAfter P.handle b = (Y, .ok) ∧
-      (Y.removeConsolidate (some P.handle) (Y.nextSibling P.handle)).1.Inv := by
+      (Y.removeConsolidate (Y.prevSibling N.handle) (some N.handle)).1.Inv := by
   have nd := hi.nodup
   have nd1 := g.drop_nodup nd
   obtain ⟨hpar, hsc1, hsr1, hnx1⟩ := g.guards hi ra
@@ -248,7 +248,27 @@ theorem Gap.replace_text (g : Gap f a init fr l0 P A N r0 ps ns) (hi : f.Inv) {b
         exact Ne.symm ra.neN), nextSibling_of_loc_snoc lcP1s vb.nodup]
       simp only [List.head?_cons, Option.bind_some, setValue_value, g.hNn]
       rfl
-    rw [hnextP, eY]
+    -- … and `P` is what stands before `N` there (xot 609b613 looks from `N`)
+    have lcN1s : Loc (fs.dropSubtree a).roots N.handle (init ++ [fr]) (l0 ++ [P.setValue (.text (ps ++ bs))]) N r0 :=
+      ⟨by rw [lcP1s.eq]; simp, rfl⟩
+    have hancN : ((fs.dropSubtree a).ancestors N.handle).contains b = false := by
+      rw [ancestors_of_loc lcN1s vb.nodup]
+      have := ra.ancPar
+      rw [ancestors_of_loc g.locPar nd] at this
+      simp only [List.contains_eq_mem, List.mem_cons, List.mem_reverse, List.mem_map,
+        decide_eq_false_iff_not, not_or, not_exists, not_and, List.map_append, List.map_cons,
+        List.map_nil, List.reverse_append, List.reverse_cons, List.reverse_nil, List.nil_append,
+        List.cons_append, List.mem_append, List.mem_singleton] at this ⊢
+      exact ⟨ra.neN, this⟩
+    have vn := dropView lcN1s vb.nodup hb1s hancN
+    have hprevN : (((f.dropSubtree a).setValue P.handle (.text (ps ++ bs))).spliceOut b).prevSibling N.handle =
+        some P.handle := by
+      rw [e1, spliceOut_leaf_eq_drop vb.nodup hgb1 hBt, vn.prevSibling lcN1s vb.nodup (by
+        intro n hn; simp only [List.getLast?_concat, Option.some.injEq] at hn; subst hn
+        simpa using Ne.symm ra.neP), prevSibling_of_loc_snoc lcN1s vb.nodup]
+      simp only [List.getLast?_concat, Option.bind_some, setValue_value, setValue_handle, g.hNn]
+      rfl
+    rw [hprevN, eY]
     have := remove_inv hYf a
     unfold remove at this
     rw [hprevA, hnextA] at this
